@@ -65,6 +65,11 @@ Proof.
   destruct (f_sign x), (f_sign y); try lia.
 Qed.
 
+Lemma wf_float b : wf (VFloat b) -> b < 2 ^ 64.
+Proof. unfold wf. intros H. apply N.ltb_lt. exact H. Qed.
+Lemma nz_float b : nz (VFloat b) -> f_is_negzero b = false.
+Proof. intros H. exact H. Qed.
+
 (* ---- hash of lists and maps ---- *)
 Lemma fold_hstep_eql x : forall y h,
   (forall p q, In p x -> In q y -> p ~= q -> hash p = hash q) ->
@@ -130,10 +135,8 @@ Proof.
   - cbn in E. apply Z.eqb_eq in E. now subst.
   - cbn [equal] in E. apply Qeq_bool_iff in E. cbn [hash]. unfold hash_rat.
     now rewrite (Qred_complete _ _ E).
-  - cbn [equal] in E. cbn [hash]. f_equal.
-    apply f_eq_same_bits; auto.
-    + unfold wf in Wa. cbn in Wa. now apply N.ltb_lt in Wa.
-    + unfold wf in Wb. cbn in Wb. now apply N.ltb_lt in Wb.
+  - change (f_eq bits bits0 = true) in E. change (hash_u64 bits = hash_u64 bits0). f_equal.
+    apply f_eq_same_bits; [apply wf_float|apply wf_float|apply nz_float|apply nz_float|]; assumption.
   - cbn in E. apply bytes_eqb_spec in E. now subst.
   - rewrite equal_list in E. rewrite !hash_list. apply fold_hstep_eql; auto.
     intros p q Hp Hq Epq. apply IH; auto.
@@ -241,11 +244,11 @@ Section EqKeys.
   Proof.
     intros Wm. induction m as [|[k0 v0] m IH]; cbn.
     - split; [reflexivity|]. split; [reflexivity|]. intros k Wk. unfold hm_find, lookup_by. cbn.
-      now rewrite (hm_match_congr_r a b k).
+      rewrite (hm_match_congr_r a b k) by assumption. now destruct (hm_match k b).
     - rewrite (hm_match_congr a b k0); auto; [|apply (Wm (k0, v0)); now left].
       destruct (hm_match b k0).
       + split; [reflexivity|]. split; [reflexivity|]. intros k Wk. unfold hm_find, lookup_by. cbn.
-        now rewrite (hm_match_congr_r a b k).
+        rewrite (hm_match_congr_r a b k) by assumption. now destruct (hm_match k b).
       + destruct IH as (I1 & I2 & I3); [intros e' He'; apply Wm; now right|].
         cbn. split; [congruence|]. split; [congruence|].
         intros k Wk. unfold hm_find, lookup_by in *. cbn.
